@@ -8,6 +8,7 @@ import (
 	"bufio"
 	"encoding/json"
 	"fmt"
+	"net/url"
 	"os"
 	"os/exec"
 	"strconv"
@@ -23,9 +24,9 @@ func init() {
 	subcmds["c09-child"] = c09Child
 }
 
-type rawTerm struct{ s string }
+type c09RawTerm struct{ s string }
 
-func (t rawTerm) coq(sb *strings.Builder) { sb.WriteString(t.s) }
+func (t c09RawTerm) coq(sb *strings.Builder) { sb.WriteString(t.s) }
 
 type c09ChildLine struct {
 	Announce string   `json:"announce,omitempty"` // input about to be run
@@ -59,7 +60,14 @@ func c09Emit(c *Ctx, gen string, in, obs Term, nt bool, tags ...string) {
 	c09ChildOut.Write(b)
 	c09ChildOut.WriteByte('\n')
 	c09ChildOut.Flush()
+	if c09Poisoned {
+		// a call of this case never returned; its goroutine may hold a lock of the driver package
+		// or spin: nothing more can be run here.  The case above carries the "hang" observable.
+		os.Exit(c09ExitPoisoned)
+	}
 }
+
+const c09ExitPoisoned = 3
 
 // c09Child: harness c09-child <stream> <seed> <tier> <n>   (cwd = a scratch directory of its own)
 func c09Child(args []string) {
@@ -69,6 +77,9 @@ func c09Child(args []string) {
 	c := &Ctx{Prop: "C09", Tier: args[2], Seed: seed, R: NewRng(seed), N: n, dist: map[string]int{}, seen: map[string]bool{}, Extra: map[string]interface{}{}}
 	c09Env()
 	c09Explore(c, args[0])
+	if c09Poisoned { // a watchdog fired outside any case (state reset): report it against the stream
+		c09Emit(c, args[0], L(S("died"), S(args[0])), L(L(S("hang"))), true, "op:"+args[0])
+	}
 	c09ChildOut.Flush()
 }
 
@@ -113,7 +124,7 @@ func c09RunChildren(c *Ctx, streams []string) {
 					out[i].lines = append(out[i].lines, l)
 				}
 			}
-			if err := cmd.Wait(); err != nil {
+			if err := cmd.Wait(); err != nil && cmd.ProcessState.ExitCode() != c09ExitPoisoned {
 				msg := stderr.String()
 				if k := strings.Index(msg, "\n\n"); k > 0 {
 					msg = msg[:k]
@@ -136,18 +147,42 @@ func c09RunChildren(c *Ctx, streams []string) {
 				continue
 			}
 			pending = nil
-			c.Case(l.Gen, rawTerm{l.In}, rawTerm{l.Obs}, l.NT, l.Tags...)
+			c.Case(l.Gen, c09RawTerm{l.In}, c09RawTerm{l.Obs}, l.NT, l.Tags...)
 		}
 		if out[i].died != "" {
 			in := L(S("died"), S(st))
 			gen := st
 			if pending != nil {
-				in, gen = rawTerm{pending.Announce}, pending.Gen
+				in, gen = c09RawTerm{pending.Announce}, pending.Gen
 			}
 			// the process exited abnormally while (or right after) running this input
 			c.Case(gen, in, L(L(S("panic"), S("process died: "+out[i].died))), true, "op:"+st, "process-died")
 		}
 		c.Extra[st+"_wall_s"] = out[i].wall
+	}
+}
+
+// c09MeanProfile: at least two sample types, at least one sample, and the first value of every
+// other sample (incl. the first) is 0 while the sample keeps its stack.
+func c09MeanProfile(r *Rng) *profile.Profile {
+	for {
+		p := c09Profile(r, false)
+		if len(p.SampleType) < 2 || len(p.Sample) == 0 {
+			continue
+		}
+		withStack := false
+		for j, sm := range p.Sample {
+			if j%2 == 0 {
+				sm.Value[0] = 0
+				if sm.Value[len(sm.Value)-1] == 0 {
+					sm.Value[len(sm.Value)-1] = 500
+				}
+				withStack = withStack || len(sm.Location) > 0
+			}
+		}
+		if withStack && p.CheckValid() == nil {
+			return p
+		}
 	}
 }
 
@@ -158,6 +193,10 @@ func c09Explore(c *Ctx, stream string) {
 	r := c.R
 	genQuery := c09QueryGen(r)
 	switch stream {
+	case "core", "config", "session-hook":
+		c09Core(c, stream)
+	case "symbolize":
+		c09Symbolize(c)
 	case "session-real":
 		for k := 0; k < c.Budget(400, 20000); k++ {
 			p := c09Profile(r, false)
@@ -168,25 +207,18 @@ func c09Explore(c *Ctx, stream string) {
 			c09Session(c, "session-real", p, lines, true)
 		}
 		// every report under mean / mean_<type>, on profiles whose count column holds zeros
-		reports := []string{"text", "top", "tree", "traces", "peek .", "dot", "callgrind", "tags", "raw", "topproto", "comments", "proto"}
-		for k := 0; k < c.Budget(36, 1200); k++ {
-			p := c09Profile(r, false)
-			for len(p.SampleType) < 2 {
-				p = c09Profile(r, false)
-			}
-			for j, sm := range p.Sample {
-				if j%2 == 0 && len(sm.Value) > 0 {
-					sm.Value[0] = 0
-				}
-			}
-			if len(p.Sample) == 0 || p.CheckValid() != nil {
-				continue
-			}
+		// (the mean divides by the first value of a sample)
+		reports := []string{"text", "top", "tree", "traces", "peek .", "dot", "callgrind", "tags", "raw", "topproto", "comments", "proto", "list .", "svg"}
+		for k := 0; k < c.Budget(42, 1400); k++ {
+			p := c09MeanProfile(r)
 			pre := "mean=1"
-			if k%3 == 1 {
+			switch k % 3 {
+			case 1:
 				pre = "sample_index=" + p.SampleType[len(p.SampleType)-1].Type
+			case 2:
+				pre = "mean_" + p.SampleType[len(p.SampleType)-1].Type
 			}
-			c09Session(c, "session-mean", p, []string{"mean=1", pre, reports[k%len(reports)], "top 3"}, true)
+			c09Session(c, "session-mean", p, []string{"mean=1", pre, reports[k%len(reports)]}, true)
 		}
 	case "web":
 		// a profile without sample types never reaches the web handlers: fetchProfiles rejects it
@@ -207,6 +239,18 @@ func c09Explore(c *Ctx, stream string) {
 			}
 			c09Web(c, "web", p, cli, reqs)
 		}
+		// every handler under mean=1 on profiles whose count column holds zeros
+		for k := 0; k < c.Budget(22, 700); k++ {
+			p := c09MeanProfile(r)
+			q := "mean=1"
+			if k%2 == 1 {
+				q = "mean=t&si=" + url.QueryEscape(p.SampleType[len(p.SampleType)-1].Type)
+			}
+			if k%3 == 2 {
+				q += "&f=."
+			}
+			c09Web(c, "web-mean", p, nil, []c09Req{{paths[k%len(paths)], q}})
+		}
 		// the witness of known finding F25 is always replayed, LAST (the spinning goroutine dies with
 		// this process): two lines of one function 2^63 apart, listed through /source
 		{
@@ -223,6 +267,28 @@ func c09Explore(c *Ctx, stream string) {
 		p0 := &profile.Profile{Comments: []string{"no sample types"}}
 		c09CLI(c, "no-sample-types", p0, []string{"p"}, []string{"o"})
 		c09CLI(c, "no-sample-types", p0, []string{"-top", "p"}, nil)
+		// every report format under -mean on profiles whose count column holds zeros
+		for k := 0; k < c.Budget(44, 1500); k++ {
+			p := c09MeanProfile(r)
+			cn := cmds[k%len(cmds)]
+			if k%6 == 0 {
+				cn = "traces" // the report that divides per sample
+			}
+			args := []string{"-" + cn}
+			if cn == "list" || cn == "peek" || cn == "disasm" || cn == "weblist" {
+				args = []string{"-" + cn + "=."}
+			}
+			args = append(args, "-mean")
+			switch k % 4 {
+			case 1:
+				args = append(args, "-sample_index="+p.SampleType[len(p.SampleType)-1].Type)
+			case 2:
+				args = append(args, "-sample_index=0")
+			case 3:
+				args = append(args, "-output=out")
+			}
+			c09CLI(c, "cli-mean", p, append(args, "p"), nil)
+		}
 		for k := 0; k < c.Budget(400, 15000); k++ {
 			p := c09Profile(r, true)
 			var args []string
